@@ -26,7 +26,7 @@ RULE = ('seeded analytic truth motions (|lat|<=85 both hemispheres, speed <=300 
 ASSUMPTIONS = ['accelerometer floor 100 eps R / h^2: the readings come from a spline second derivative of a 6.4e6 m vector (measured at rest: '
                '~20 eps R / h^2)', 'samples within 12 knots of either end carry spline end-condition error (decays ~0.27 per knot) and are '
                'checked with the shrink test only', 'for increment type the duplicated first sample is not compared']
-REQUIRED_OBS = ['increment_order_checked', 'reading_ladders', 'trajectory_ladders', 'inversion_ladders', 'at_rest_checked', 'sine_motion_checked', 'forms_compared',
+REQUIRED_OBS = ['accel_increment_order_checked', 'increment_order_checked', 'reading_ladders', 'trajectory_ladders', 'inversion_ladders', 'at_rest_checked', 'sine_motion_checked', 'forms_compared',
                 'readings_above_floor']
 REQUIRED_CLASSES = {'all': ['motion', 'rest', 'sine']}
 EPS = np.finfo(float).eps
@@ -172,6 +172,17 @@ def run_motion(case, out, obs):
                 out.append(vio('increment_integral', f'gyro: increment-type error per unit time falls only from {e_h:.3e} to {e_h2:.3e} when the '
                                f'interval is halved (form={form}, h={h}): the interval integration adds an error of lower order than the '
                                f'interpolation (expected ratio ~0.06)'))
+        # same for the accelerometer increments (third order: ratio 0.125..0.137 over 217 calibration ladders; a wrong cross term in
+        # the specific-force series gives 0.25).  Only at h = 100 ms and for errors >= 1e-4 m/s^2, where the spline-noise floor
+        # (~2e-6 m/s^2 at 50 ms) cannot distort the ratio.
+        a_h, a_h2 = interior_err[(form, 'increment', 'accel')][0], interior_err2[(form, 'increment', 'accel')]
+        if h == 0.1 and a_h >= 1e-4:
+            obs['accel_increment_order_checked'] = obs.get('accel_increment_order_checked', 0) + 1
+            obs['max_accel_increment_ratio_x1000'] = max(obs.get('max_accel_increment_ratio_x1000', 0), int(1000 * a_h2 / a_h))
+            if a_h2 > 0.18 * a_h:
+                out.append(vio('increment_integral', f'accel: increment-type error per unit time falls only from {a_h:.3e} to {a_h2:.3e} when the '
+                               f'interval is halved (form={form}, h={h}): the interval integration of specific force adds an error of lower order '
+                               f'than the interpolation (expected ratio ~0.13)'))
     return dict(h=h, T=T, extremes=ex, lat0=float(np.rad2deg(m.p['lat'][0])))
 
 
